@@ -96,6 +96,8 @@ class Probe:
         def replace_nodes(source, replacements):
             if probe.in_subst:
                 probe.cur_repl = dict(replacements)
+            if probe.in_fsubst:
+                probe.cur_frepl = dict(replacements)
             return probe.real_replace_nodes(source, replacements)
 
         def subst(original_source, new_source):
@@ -108,6 +110,21 @@ class Probe:
                 probe.restores.append(restore_facts(probe.mods, original_source, new_source, probe.cur_repl, out))
             return out
 
+        self.real_fsubst = self.proc._substitute_original_fstrings
+        self.frestores = []
+        self.in_fsubst = False
+
+        def fsubst(original_source, new_source):
+            probe.in_fsubst, probe.cur_frepl = True, None
+            try:
+                out = probe.real_fsubst(original_source, new_source)
+            finally:
+                probe.in_fsubst = False
+            if probe.record_restores and original_source != new_source:
+                probe.frestores.append(frestore_facts(probe.mods, original_source, new_source, probe.cur_frepl, out))
+            return out
+
+        self.fsubst = fsubst
         self.replace_nodes, self.subst = replace_nodes, subst
         self.record_restores = False
 
@@ -159,6 +176,7 @@ class Probe:
 
     def __enter__(self):
         self.proc._substitute_original_strings = self.subst
+        self.proc._substitute_original_fstrings = self.fsubst
         self.proc._replace_nodes = self.replace_nodes
         self.fixes.formatting = self.formatting_proxy
         self.fixes.textwrap = self.textwrap_proxy
@@ -172,6 +190,7 @@ class Probe:
         self.fixes.re = self.real_re
         self.fixes.fix_too_many_blank_lines = self.real_ftmbl
         self.proc._substitute_original_strings = self.real_subst
+        self.proc._substitute_original_fstrings = self.real_fsubst
         self.proc._replace_nodes = self.real_replace_nodes
         self.fixes.formatting = self.real_formatting
         self.fixes.textwrap = self.real_textwrap
@@ -1021,8 +1040,25 @@ def check(run: common.Run):
             finfo.append(("frame", cur, ind if n > 0 else cur, n))
         add_files("frame", "list string * nat * list string * list string * list string", "frame_case_ok",
                   fitems, finfo, 150)
-        add_files("restore", "bool * list (nat * nat * bool) * list (nat * nat * bool) * list nat",
-                  "restore_case_ok", ritems2, rinfo2, 150)
+        add_files("restore", "bool * list (nat * nat * bool) * list (nat * nat * bool) * list (list nat)",
+                  "restore_pick_case_ok", ritems2, rinfo2, 150)
+        fseen2, fritems, frinfo = set(), [], []
+        for f in pr.frestores:
+            if f is None or (f["original"], f["new"]) in fseen2:
+                continue
+            fseen2.add((f["original"], f["new"]))
+            if not f["news"]:
+                continue
+            hist["frestore:" + ("replaced" if f["replaced"] else "left-alone")] += 1
+            if ast_key(f["out"], docs=False) != ast_key(f["new"], docs=False):
+                failing.append({"site": "processing._substitute_original_fstrings", "stage": "frestore",
+                                "input": f["new"], "original": f["original"], "output": f["out"],
+                                "problem": "restoring the original f-string spelling changed the syntax tree"})
+            if f["replaced"] or len(fritems) < (300 if quick else 3000):
+                fritems.append(frestore_case(f))
+                frinfo.append(("frestore", f["new"], f["out"], f["original"]))
+        add_files("frestore", "list (nat * nat * bool) * list (nat * nat * bool * bool) * list (list nat)",
+                  "frestore_case_ok", fritems, frinfo, 150)
 
     lap('e2e sweep')
     # ---- 4. minimize_whitespace_line_differences: exhaustive short scripts + seeded + real difflib
@@ -1139,7 +1175,7 @@ def check(run: common.Run):
                        "explanation": "a property theorem no longer checks"}, bool(failing))
 
     run.coverage.update(
-        evaluations=len(info) + len(rinfo2) + len(finfo) + 7 * len(sinfo) + 3 * len(rinfo) + 7 * len(cinfo) + len(pinfo) + len(minfo) + len(iinfo) + len(dinfo) + n_e2e,
+        evaluations=len(info) + len(rinfo2) + len(frinfo) + len(finfo) + 7 * len(sinfo) + 3 * len(rinfo) + 7 * len(cinfo) + len(pinfo) + len(minfo) + len(iinfo) + len(dinfo) + n_e2e,
         distinct_nontrivial=len({(st, a) for (st, a, b) in info + sinfo + cinfo + pinfo if a != b})
         + len({x[1] for x in rinfo2 if x[1] != x[2]})
         + len({json.dumps(x[1]) for x in minfo if any(t != 0 for t, _ in x[1])})
@@ -1172,9 +1208,8 @@ def check(run: common.Run):
         unmodelled=["black.format_str (line wrapping)", "compactify.format_code",
                     "fixes.fix_line_lengths: statement ranges, elif handling, what black does between dedent and re-indent "
                     "(the dedent/re-indent frame IS modelled: FrameModel.v)",
-                    "processing._substitute_original_fstrings / _do_rewrite; the b/r/f prefix adjustment and the "
-                    "Counter.most_common choice inside _substitute_original_strings (model = set of admissible "
-                    "spellings, compared modulo prefix letters)",
+                    "processing._do_rewrite / _replace_nodes; the b/r/f prefix adjustment inside "
+                    "_substitute_original_strings (spellings compared modulo prefix letters when it fires)",
                     "difflib.Differ (abstracted: the theorems hold for every script)",
                     "core.get_charnos / walk_sequence / _is_stdlib feeding fix_import_spacing (inputs of the model)",
                     "textwrap.dedent / indent"],
@@ -1284,11 +1319,12 @@ def restore_facts(mods, original_source, new_source, repl, out):
     for v, s, node in nn:
         r = (repl or {}).get(node)
         if r is None:
-            obs.append(0)
+            obs.append([])
             continue
+        r = str(r)
         # the b/r/f prefix adjustment is not modelled: compare modulo prefix letters
-        match = [t for (v2, t) in on if v2 == v and t.lstrip(PREFIX_CHARS) == str(r).lstrip(PREFIX_CHARS)]
-        obs.append(1 + (tid(match[0]) if match else 10 ** 6))
+        match = [t for (v2, t) in on if v2 == v and t.lstrip(PREFIX_CHARS) == r.lstrip(PREFIX_CHARS)]
+        obs.append(sorted({tid(t) for t in match}) or [10 ** 6])
     return {"all_in": all_in, "origs": origs, "news": news, "obs": obs, "original": original_source,
             "new": new_source, "out": out, "replaced": sum(1 for o in obs if o)}
 
@@ -1296,7 +1332,54 @@ def restore_facts(mods, original_source, new_source, repl, out):
 def restore_case(f) -> str:
     def trip(x):
         return f"({x[0]}, {x[1]}, {gbool(x[2])})"
-    return (f"({gbool(f['all_in'])}, {glist(f['origs'], trip)}, {glist(f['news'], trip)}, {glist(f['obs'])})")
+    return (f"({gbool(f['all_in'])}, {glist(f['origs'], trip)}, {glist(f['news'], trip)}, {glist(f['obs'], glist)})")
+
+
+def _is_fstring_of(mods, text: str, key: str) -> bool:
+    """`text`, parsed on its own, is an expression statement holding an f-string whose unparse text is key"""
+    try:
+        tree = ast.parse(text)
+    except (SyntaxError, ValueError):
+        return False
+    return (len(tree.body) == 1 and isinstance(tree.body[0], ast.Expr) and isinstance(tree.body[0].value, ast.JoinedStr)
+            and mods["core"].unparse(tree.body[0].value) == key)
+
+
+def frestore_facts(mods, original_source, new_source, repl, out):
+    """Inputs of RestoreModel.frestore for one real call of _substitute_original_fstrings."""
+    core = mods["core"]
+    try:
+        new_ast, orig_ast = core.parse(new_source), core.parse(original_source)
+    except SyntaxError:
+        return None
+    keys, texts = {}, {}
+
+    def kid(k):
+        return keys.setdefault(k, len(keys))
+
+    def tid(s):
+        return texts.setdefault(s, len(texts))
+    origs = []
+    for n in core.walk(orig_ast, ast.JoinedStr):
+        code = core.get_code(n, original_source)
+        origs.append((kid(core.unparse(n)), tid(code), valid(code)))
+    news, obs = [], []
+    for n in core.walk(new_ast, ast.JoinedStr):
+        code, key = core.get_code(n, new_source), core.unparse(n)
+        news.append((kid(key), tid(code), valid(code), _is_fstring_of(mods, code, key)))
+        r = (repl or {}).get(n)
+        obs.append([] if r is None else [tid(str(r))])
+    return {"origs": origs, "news": news, "obs": obs, "original": original_source, "new": new_source, "out": out,
+            "replaced": sum(1 for o in obs if o)}
+
+
+def frestore_case(f) -> str:
+    def trip(x):
+        return f"({x[0]}, {x[1]}, {gbool(x[2])})"
+
+    def quad(x):
+        return f"({x[0]}, {x[1]}, {gbool(x[2])}, {gbool(x[3])})"
+    return f"({glist(f['origs'], trip)}, {glist(f['news'], quad)}, {glist(f['obs'], glist)})"
 
 
 # ------------------------------------------------------------------------------------------------
